@@ -46,9 +46,10 @@ func (d *defaultPacketLogger) LogRTPPacket(header *rtp.Header, payload []byte, a
 	select {
 	case d.rtpChan <- &rtpDump{
 		attributes: attributes,
+		// the logger goroutine formats the packet after the caller's call has returned: keep a copy
 		packet: &rtp.Packet{
-			Header:  *header,
-			Payload: payload,
+			Header:  header.Clone(),
+			Payload: append([]byte(nil), payload...),
 		},
 	}:
 	case <-d.close:
